@@ -765,6 +765,11 @@ namespace
         }
         auto base_type_str = arr->at(0).data<d_string, std::string>();
         auto base_conf = arr->at(1).data<d_config, config>();
+        if (base_conf.container_id() == config::invalid_id)
+        {
+            runtime.__logmsg(err::ExpectedNonNullValue(runtime.context_active().current_frame().diag_info_from_position()));
+            return {};
+        }
 
         {
             auto nav = base_conf.navigate(runtime.confighost());
